@@ -355,38 +355,40 @@ pub fn sample_seen(group: usize, slot: usize) -> [u32; 2] {
 /// canonical form then enters the fingerprint as two independently salted 64-bit SipHash values
 /// (keeping the full text made the quick tier 3x slower through key size alone).
 pub fn norm(s: &str) -> [u8; 16] {
+    let mut seen: Vec<usize> = Vec::with_capacity(16);
+    norm_with(s, &mut |addr| match seen.iter().position(|a| *a == addr) {
+        Some(k) => k as u8,
+        None => {
+            seen.push(addr);
+            (seen.len() - 1) as u8
+        }
+    })
+}
+
+/// As `norm`, with the caller deciding what an address is rendered as (e.g. the index of the
+/// harness node that lives there, so that *which* node a hidden pointer field refers to is part
+/// of the canonical form).
+pub fn norm_with(s: &str, name: &mut dyn FnMut(usize) -> u8) -> [u8; 16] {
     use std::hash::Hasher;
     let b = s.as_bytes();
     let mut h1 = std::collections::hash_map::DefaultHasher::new();
     let mut h2 = std::collections::hash_map::DefaultHasher::new();
     h2.write_u64(0x9e37_79b9_7f4a_7c15);
-    let mut seen: [&[u8]; 32] = [&[]; 32];
-    let mut nseen = 0usize;
     let mut i = 0;
     let mut start = 0;
     while i < b.len() {
         if b[i] == b'0' && i + 1 < b.len() && b[i + 1] == b'x' {
             let mut j = i + 2;
+            let mut addr: usize = 0;
             while j < b.len() && b[j].is_ascii_hexdigit() {
+                addr = addr.wrapping_mul(16).wrapping_add((b[j] as char).to_digit(16).unwrap() as usize);
                 j += 1;
             }
-            let tok = &b[i..j];
-            let idx = match seen[..nseen].iter().position(|t| *t == tok) {
-                Some(k) => k,
-                None => {
-                    if nseen < 32 {
-                        seen[nseen] = tok;
-                        nseen += 1;
-                        nseen - 1
-                    } else {
-                        32
-                    }
-                }
-            };
+            let idx = name(addr);
             h1.write(&b[start..i]);
             h2.write(&b[start..i]);
-            h1.write(&[b'#', idx as u8]);
-            h2.write(&[b'#', idx as u8]);
+            h1.write(&[b'#', idx]);
+            h2.write(&[b'#', idx]);
             i = j;
             start = j;
         } else {
